@@ -101,7 +101,7 @@ def run(tier, replay=None):
                 continue
             idv = 500 + n if idk == "int" else "par-%d" % n
             body, _, _ = rc.body_for(m, pc, idv)
-            items.append({"id": "p%d" % n, "body": body})
+            items.append({"id": "p%d" % n, "body": body, "expect_answer": True})
             meta.append((m, pc, idk, expect, body))
         jobs = [(kind, [dict(it, sse=(kind == "sse")) for it in items], regset) for kind in rc.KINDS]
         outs = rc.run_probes(jobs)
